@@ -29,6 +29,9 @@ class ServicesManager:
         # so we need to introduce a lock to ensure the access to the dictionary is concurrent safe.
         self._access_dict_lock = asyncio.Lock()
         self._service_dict = {}
+        # sid -> lock held by the connection currently served for that service;
+        # asyncio.Lock wakes its waiters in FIFO order, so connections are served in arrival order
+        self._sid_locks = {}
 
     async def create_service(self, sid: str, websocket: WebSocketServerProtocol):
         short_sid = shorten_sid(sid)  # shorten sid for display and log
@@ -37,8 +40,8 @@ class ServicesManager:
         # a new service created with the same sid just to send init or control messages will not affect the database.
         service = Service(sid, websocket)
 
-        if sid in self._service_dict:
-            prev_server = self._service_dict[sid]
+        sid_lock = self._sid_locks.setdefault(sid, asyncio.Lock())
+        if sid_lock.locked():
             reason = f"Service {short_sid} is already running, we need to wait for the previous connection to close..."
             logger.warning(reason)
             # In the previous practice, if the previous connection was not closed,
@@ -46,18 +49,23 @@ class ServicesManager:
             # So we need to send a control message to the client to tell it
             # to wait for the previous connection to close.
             service.send_message(MsgType.CONTROL, reason.encode('utf8'))
-            await prev_server.wait_closed()  # wait for the previous socket to close
 
-        async with self._access_dict_lock:
-            self._service_dict[sid] = service
-        clean_task = asyncio.create_task(self.clean_service_when_close_connection(sid, websocket))
-        await service.start()  # run forever! do not use asyncio.create_task
-        await clean_task
+        async with sid_lock:  # wait for the previous connection(s) of this service to be closed and cleaned
+            async with self._access_dict_lock:
+                self._service_dict[sid] = service
+            try:
+                await service.start()  # run forever! do not use asyncio.create_task
+            finally:
+                if not websocket.closed:
+                    # the handler gave up (e.g. a refused request) while the peer is still connected
+                    await websocket.close(1011)
+                await self.clean_service_when_close_connection(sid, service)
 
-    async def clean_service_when_close_connection(self, sid: str, websocket: WebSocketServerProtocol):
-        await websocket.wait_closed()
+    async def clean_service_when_close_connection(self, sid: str, service: Service):
+        await service.wait_closed()
         async with self._access_dict_lock:
             await asyncio.sleep(1)
-            self._service_dict[sid].close_service()
-            del self._service_dict[sid]
+            service.close_service()
+            if self._service_dict.get(sid) is service:
+                del self._service_dict[sid]
         logger.info(f"Clean service {shorten_sid(sid)} successfully.")
